@@ -93,7 +93,9 @@ Definition wake (c : cfg) (b : buf) : option buf :=
   | _ => None
   end.
 
-(* time.AfterFunc(swapWaitMax, func(){ lock; timeout = true; unlock })   [+ Signal in the repaired variant] *)
+(* time.AfterFunc(swapWaitMax, func(){ lock; timeout = true; unlock })
+   repaired variant: func(){ lock; timeout = true; unlock; b.cond.Broadcast() } - the waiting sender is woken; the
+   case in which the Broadcast comes after another wake-up is the separate step Signal *)
 Definition timer_fire (fxT : bool) (c : cfg) (now : Z) (b : buf) : option buf :=
   match bst b with
   | SWait post t0 false w => if t0 + cMax c <=? now then Some (set_st b (SWait post t0 true (w || fxT))) else None
@@ -165,7 +167,9 @@ Inductive step :=
 | Report (a : bool) (ok : bool)   (* reportWouldBlockIfAny; ok = conn.Write succeeded *)
 | CloseBuf (a : bool)
 | ClosePool
-| Tick (d : Z).
+| Tick (d : Z)
+| Signal (a : bool).          (* repaired timer only: its Broadcast happens after the callback released the mutex, so it
+                                 can also arrive late (after a push already woke the sender), in a later wait *)
 
 (* tcpPool.writeLocked + the counters of WritePacketLocked; second component: accepted? *)
 Definition write_locked (c : cfg) (p : pkt) (len : Z) (s : pool) : pool :=
@@ -225,6 +229,7 @@ Definition app_step (fxT fxR : bool) (c : cfg) (st : step) (s : pool) : option p
   | Tick d =>
       if (0 <? d) && negb (timer_blocks c (now s + d) (pa s)) && negb (timer_blocks c (now s + d) (pb s))
       then Some (set_now s (now s + d)) else None
+  | Signal a => if fxT then Some (setb a s (signal (getb a s))) else None
   end.
 
 Fixpoint run (fxT fxR : bool) (c : cfg) (s : pool) (tr : list step) : option pool :=
